@@ -2,7 +2,7 @@
    (src/module/functions/mod.rs). The replacement body is a builder program (Model/Builder.v)
    that may mention the argument locals. *)
 From Coq Require Import List NArith ZArith Bool. Import ListNotations.
-From WV Require Import Gen.Ops Model.Common Model.IR Model.Arena Model.Builder Model.ModuleM Model.ParseM.
+From WV Require Import Gen.Ops Model.Common Model.IR Model.Arena Model.Builder Model.ModuleM Model.ParseM Model.GC.
 Open Scope N_scope.
 
 (* FunctionBuilder::new: types.add(params, results) then add_entry_ty(results) *)
@@ -47,7 +47,7 @@ Definition exported_func_export (m : wir) (fid : N) : option N :=
   match find (fun p => match ex_kind (snd p) with EK_Func => N.eqb (ex_item (snd p)) fid | _ => false end) (aiter (m_exports m)) with
   | Some p => Some (fst p) | None => None end.
 
-Definition replace_exported_func (m : wir) (fid : N) (body : list N -> list bop) : pres (wir * N) :=
+Definition replace_exported_func_core (m : wir) (fid : N) (body : list N -> list bop) : pres (wir * N) :=
   eid <-- of_opt_err (exported_func_export m fid) ;;
   f <-- of_opt_panic (aget (m_funcs m) fid) ;;
   match fn_kind f with
@@ -64,4 +64,13 @@ Definition replace_exported_func (m : wir) (fid : N) (body : list N -> list bop)
       | _ => PPanic
       end
   | _ => PErr
+  end.
+
+(* ... and, last, `passes::gc::declare_referenced_funcs`: the retargeted export may have been the only thing that declared the original
+   function for `ref.func` instructions elsewhere; the functions left undeclared get one new declared element segment *)
+Definition replace_exported_func (m : wir) (fid : N) (body : list N -> list bop) : pres (wir * N) :=
+  match replace_exported_func_core m fid body with
+  | POk (m', nid) => match declare_referenced_funcs m' with Ok m'' => POk (m'', nid) | _ => PPanic end
+  | PErr => PErr
+  | PPanic => PPanic
   end.
